@@ -60,6 +60,10 @@ CLAIMS = {
    text='Partial: for ANY index values a bitstream can carry (interval abstract interpretation of the dequantisers, not sampled inputs) - NLSFs are stored inside [0,32767] and stabilised on every path; the stabiliser returns only with verified spacing or after its four-pass sort-and-clamp fallback (whose skip edge is proved infeasible); the gain index stays in [0,63] and the log-gain argument <= 3967 for any delta chain; pitch lags end in [2*Fs,18*Fs] for all six (Fs, sub-frame) cases; NLSF2A fits to 16 bit before the inverse-gain loop, leaves it only with non-zero gain or at the cap whose last chirp is exactly 0; LPC_fit saturates on its give-up path; the decoder prediction filters have no other writer; the interpolation factor is in [0,4]; plus the codebook data preconditions (shapes vs selecting iCDFs, deltaMin sums, non-zero weights, ec_sel ranges, reciprocal steps, cosine table, contour strides). Numeric stability of every LPC and encoder/decoder value equality are NOT decided.',
    note=TRUST + 'Assumes no signed overflow inside the analysed expressions beyond what the type clipping models.',
    technique='interval-set abstract interpretation with inlined callee summaries and expression facts (saturation idiom), partitioned per (Fs, sub-frame count); must-pass-through / dominance; table predicates; decision-table extraction'),
+ 'C20': dict(category='other',
+   text='Partial: the two inactivity counters (Opus generalised DTX in decide_dtx_mode, SILK in silk_encode_do_VAD_FLP/FIX) are extracted from the source as finite automata by partitioned abstract interpretation and explored exhaustively for all nine legal frame durations: the first DTX decision falls within one frame of the 200 ms mark, a DTX run is shorter than 400 ms + one frame and is followed by a refresh frame, activity resets counter and decision; both detectors share thresholds and nothing else writes the counters; OPUS_GET_IN_DTX is true on every DTX frame; a DTX decision (and the SILK nBytes==0 path) emits only the TOC byte, zero final range, length 1; the counter is cleared when DTX is off / analysis invalid; the frame length is passed exactly in Q1 ms; multi-frame packets count DTX frames; the decoder routes <=1-byte payloads to concealment bounded by the TOC duration. Activity classification of a given signal, decoder output level in the gap, and absence of tiny packets with DTX off are NOT decided.',
+   note=TRUST,
+   technique='automaton extraction by value-partitioned abstract interpretation of the (loop-free) decision functions + exhaustive exploration of the extracted automaton; control-dependence region effects; dominance facts'),
 }
 
 NA_REASON = {
